@@ -241,6 +241,18 @@ def generate(st):
                     e_['types'] = ['list']
                 stack = [e_] + stack if g.random() < 0.5 else stack + [e_]
             ops.append({'op': 'recursion', 'n': g.choice([3, 5, 8, 12]), 'decs': stack, 'by_pos': g.random() < 0.7})
+        elif r < 0.822 and 'try' in cfg['decs'] and not retry:
+            stack = [{'t': 'try', 'value': g.choice(['zero', 'true', 'false', 'nan', 'none'])}]
+            if 'kws' in cfg['decs'] and g.random() < 0.4:
+                stack = ([{'t': 'kws'}] + stack) if g.random() < 0.5 else (stack + [{'t': 'kws'}])
+            lists = []
+            for _ in range(g.choice([1, 2, 3])):
+                n_ = g.choice([1, 2, 3, 4, 6])
+                items = [g.choice([1, 2, 3, 5]) for _ in range(n_)]
+                for _ in range(g.choice([0, 1, 1, 2])):
+                    items[g.randrange(n_)] = 'bad'
+                lists.append(items)
+            ops.append({'op': 'recursion_try', 'value': stack[0]['value'] if stack[0]['t'] == 'try' else stack[1]['value'], 'decs': stack, 'lists': lists})
         elif r < 0.83 and cfg.get('argpool') and cfg['containers']:
             ops.append({'op': 'edit_arg', 'k': g.randrange(3), 'v': g.choice([1, 2, 5, 's'])})
         elif r < 0.86:
@@ -276,6 +288,9 @@ def _sig_src(s):
     return ', '.join(parts)
 
 
+HOOK = {'fn': None}
+
+
 def _make_funcs(fid, s, ledger):
     names = _names(s)
     collect = '(%s)' % ''.join('%s, ' % n for n in names)
@@ -288,6 +303,9 @@ def _make_funcs(fid, s, ledger):
     state = {'calls': 0}
 
     def body(named, varargs, kwitems):
+        if HOOK['fn'] is not None:
+            fn_, HOOK['fn'] = HOOK['fn'], None        # one shot: what f does, while it runs, with the library
+            fn_()
         state['calls'] += 1
         vals = list(named) + list(varargs) + [v for _, v in kwitems]
         raised = False
@@ -719,7 +737,24 @@ def execute(trace, ctx=None):
                         if not _deep_same(_norm_callargs(got), _norm_callargs(want)):
                             raise Violation('callargs-consumed', 'call_with_callargs altered the callargs dict it was given: now %r, was %r' % (got, want), k)
                         if r == 'ok':
-                            do_call(o, pos2, kw2, k, how=lambda: call_with_callargs(o['real'], got))
+                            # ... also while f is still running: f hands the very same dict to a helper of the same signature
+                            box2 = {}
+
+                            def again_():
+                                try:
+                                    box2['v'] = call_with_callargs(twin, got)
+                                except BaseException as e_:
+                                    box2['e'] = e_
+                            HOOK['fn'] = again_
+                            try:
+                                do_call(o, pos2, kw2, k, how=lambda: call_with_callargs(o['real'], got))
+                            finally:
+                                HOOK['fn'] = None
+                            if 'e' in box2:
+                                raise Violation('callargs-consumed', 'while f was running through call_with_callargs, using the same callargs dict for a second '
+                                                'function raised %s: %s' % (type(box2['e']).__name__, box2['e']), k)
+                            if 'v' in box2:
+                                res.probe('callargs-dict-used-again-while-f-runs')
             elif kind == 'edit_arg':
                 # the caller edits one of its own containers between calls: a later call with it is a different combination
                 a = argpool[op['k'] % len(argpool)]
@@ -774,6 +809,43 @@ def execute(trace, ctx=None):
                     raise Violation('evaluated-more-than-once', 'f calling itself through its cached wrapper: %d evaluations for %d distinct arguments, %d more on repeating the calls'
                                     % (c1, n_ + 1, c2 - c1), k)
                 res.probe('recursion-through-the-cache')
+            elif kind == 'recursion_try':
+                # a function that calls ITSELF through its own try_* wrapper (sum of a list, head + wrapper(tail)): an inner call that
+                # falls back must not make the outer ones fall back (they did not raise), and the other way round
+                V = _copy.copy(FALLBACK[op['value']])
+                box_ = {}
+
+                def tot(a, b=1):
+                    if not a:
+                        return 0
+                    if a[0] == 'bad':
+                        raise SimFError('bad item')
+                    return a[0] + box_['g'](a[1:])
+
+                def model_tot(a):
+                    try:
+                        if not a:
+                            return 0
+                        if a[0] == 'bad':
+                            raise SimFError('bad item')
+                        return a[0] + model_tot(a[1:])
+                    except Exception:
+                        return V
+                g_ = tot
+                for d_ in reversed(op['decs']):
+                    g_ = build(d_, g_)
+                box_['g'] = g_
+                for items in op['lists']:
+                    items = tuple(items)          # a tuple: loop(list) layers, if any, leave it alone
+                    try:
+                        got_ = g_(items)
+                    except Exception as e:
+                        raise Violation('unexpected-exception', 'recursive try-wrapped function raised %s: %s' % (type(e).__name__, str(e)[:200]), k)
+                    exp_ = model_tot(items)
+                    if not _deep_same(got_, exp_):
+                        raise Violation('fallback', 'f calling itself through its own try wrapper on %r returned %r, expected %r (fallback %r exactly where f raises)'
+                                        % (items, got_, exp_, V), k)
+                res.probe('recursion-through-a-try-wrapper')
             elif kind == 'clear':
                 if not (0 <= op['obj'] < len(pool)):
                     continue
